@@ -23,7 +23,7 @@ STD = 'std axioms A1-A12 of DESIGN.md 2.4 (Box, cmp::max/min for a lawful Ord, V
 PROPS = {
     'C01': dict(
         title='Range satisfaction follows npm range semantics (AST level)',
-        obligations=ORDER + BOUNDS + SAT + RANGE_SPEC + ['mod:m_npm', 'fn:BoundSet::intersect', 'fn:intersect_all'] + DESUGAR + ['fn:range_set_check', 'fn:lemma_c01_alternative', 'fn:lemma_c01_range'],
+        obligations=ORDER + BOUNDS + SAT + RANGE_SPEC + ['mod:m_npm', 'fn:BoundSet::intersect', 'fn:intersect_all'] + DESUGAR + ['fn:range_set_check', 'fn:lemma_c01_alternative', 'fn:lemma_c01_range', 'fn:lemma_c01_parse_failure'],
         assumptions=[TEXT_SHELL, STD, 'node-semver README / range.js 7.6.2 desugaring tables transcribed by hand into npm_spec.rs; `*` is `>=0.0.0` as the README states (node\'s internal `>=0.0.0 -> *` shortcut is not modelled)'],
         not_decided=['text -> (operator, Partial) tokenisation incl. leading zeros, `v` prefix, blanks after operators, garbage tokens: covered by the bounded stand-in only'],
         witness='c01',
